@@ -8,6 +8,8 @@ fn mk_groups(spec: &[Vec<&str>]) -> Vec<RuleGroup> {
     spec.iter().enumerate().map(|(i, rs)| RuleGroup { name: format!("G{} \"{}\"", i, rs.len()), rule: rs.iter().map(|s| s.to_string()).collect(), description: String::new() }).collect()
 }
 
+fn runres_probe(groups: &[RuleGroup], phrase: &str, b: u64) -> bool { matches!(guarded(b, || asca::run(groups, &[phrase.to_string()], &[], &[]).is_ok()), Out::Ok(_)) }
+
 #[derive(Default)]
 struct Acc { evals: u64, reported: u64, silent: u64, errs: u64, viols: Vec<Viol>, outs: std::collections::BTreeSet<u64> }
 impl Acc { fn merge(&mut self, o: Acc) { self.evals += o.evals; self.reported += o.reported; self.silent += o.silent; self.errs += o.errs; self.viols.extend(o.viols); self.outs.extend(o.outs); } }
@@ -28,13 +30,13 @@ fn check(spec: &[Vec<&str>], phrase: &str, a: &mut Acc) {
         let mut states = vec![cur.iter().map(cw_of).collect::<Vec<_>>()];
         for gi in 0..groups.len() {
             let mut next = vec![];
-            for w in cur { next.push(av::apply_group(&cs[gi], 0, w).map_err(|e| format!("{:?}", e))?); }
+            for w in cur { next.push(av::apply_all(&cs[gi], w).map_err(|e| format!("{:?}", e))?); }
             cur = next;
             states.push(cur.iter().map(cw_of).collect());
         }
         Ok(states)
     });
-    let reference = match reference { Out::Ok(x) => x, _ => return };
+    let reference = match reference { Out::Ok(x) => x, o => { if runres_probe(&groups, phrase, b) { a.viols.push(Viol { key: format!("reference-crash|{}", key()), desc: format!("the group-by-group reference crashed ({}) although run() returns", o.crash_desc().unwrap()), case: case() }); } return; } };
     let runres = match guarded(b, || asca::run(&groups, &[phrase.to_string()], &[], &[]).map_err(|e| format!("{:?}", e))) { Out::Ok(x) => x, _ => return };
     let trace = match guarded(b, || asca::trace_changes(&groups, phrase.to_string(), &[]).map(|v| v.into_iter().map(|c| (c.rule_index, c.after.iter().map(cw_of).collect::<Vec<CW>>())).collect::<Vec<_>>()).map_err(|e| format!("{:?}", e))) { Out::Ok(x) => x, _ => return };
     let tstr = match guarded(b, || asca::get_trace_string(&groups, phrase.to_string(), &[]).map_err(|e| format!("{:?}", e))) { Out::Ok(x) => x, _ => return };
